@@ -2,7 +2,7 @@
 # Confirm the seeded mutations of one property in its scratch worktree:
 #   demo passes on the untouched tree, fails with the patch, the full suite still passes with it.
 # usage: confirm_seeds.sh C07   (worktree /tmp/seed/C07 with _seed/m1, _seed/m2)
-P=$1; WT=/tmp/seed/$P
+P=$1; WT=${SEED_ROOT:-/tmp/seed}/$P
 cd $WT || exit 2
 for m in m1 m2 m3; do
   D=$WT/_seed/$m
